@@ -610,7 +610,8 @@ class ExprBuilder:
     def operand(self, op, depth=0, stack=()):
         if op.get('k') == 'const':
             v = const_val(op)
-            return E('const', v, op.get('def') or op.get('fn_full') or op.get('text'), op.get('ty'))
+            rb = op.get('ref_bytes')
+            return E('const', v, op.get('def') or op.get('fn_full') or op.get('text'), op.get('ty'), tuple(rb) if rb is not None else None)
         if 'l' in op:
             return self.place(op, depth, stack)
         return E('unknown', op.get('text'))
